@@ -331,6 +331,31 @@ fn handle(req: &Value) -> Value {
             let b = record(val, entry);
             json!({"kind": "ok", "equal": a == b, "library": a, "serde_json": b})
         }
+        "value_conv" => {
+            // serde_json::Value -> Variable through the named conversion; compared with the value itself
+            fn untag(v: &Value) -> Value {
+                match v {
+                    Value::Array(a) => Value::Array(a.iter().map(untag).collect()),
+                    Value::Object(o) => {
+                        if o.len() == 1 {
+                            if let Some(Value::String(s)) = o.get("$u") { return Value::Number(serde_json::Number::from(s.parse::<u64>().unwrap())); }
+                            if let Some(Value::String(s)) = o.get("$i") { return Value::Number(serde_json::Number::from(s.parse::<i64>().unwrap())); }
+                            if let Some(Value::String(s)) = o.get("$f") { return Value::Number(serde_json::Number::from_f64(f64::from_bits(u64::from_str_radix(s, 16).unwrap())).unwrap()); }
+                        }
+                        Value::Object(o.iter().map(|(k, x)| (k.clone(), untag(x))).collect())
+                    }
+                    x => x.clone(),
+                }
+            }
+            use std::convert::TryFrom;
+            let val = untag(&req["value"]);
+            let r = match req["entry"].as_str().unwrap() {
+                "try_from_ref" => Variable::try_from(&val),
+                "try_from_owned" => Variable::try_from(val.clone()),
+                _ => return json!({"kind": "skipped"}),
+            };
+            match r { Ok(v) => json!({"kind": "ok", "equal": from_var(&v) == value_tagged(&val), "library": from_var(&v)}), Err(e) => err_json("err", &e) }
+        }
         "from_json" => match Variable::from_json(req["text"].as_str().unwrap()) {
             Ok(v) => json!({"kind": "ok", "value": from_var(&v)}),
             Err(e) => json!({"kind": "err", "message": e}),
